@@ -47,6 +47,7 @@ func init() {
 	executors["so"] = execSo
 	executors["sox"] = execSox
 	executors["sotx"] = execSotx
+	executors["sodev"] = execSoDev
 }
 
 var soTyBits = map[string]int{"i8": 8, "u8": 8, "i16": 16, "u16": 16, "i32": 32, "u32": 32, "i64": 64, "u64": 64, "f32": 32, "f64": 64}
@@ -723,6 +724,7 @@ const soChunk = 8192
 
 func genScaleOffset(emit func(string), tier string, rng *Rng) {
 	_ = factory.NameUnknown
+	defer genSoDev(emit, tier == "thorough", rng) // last: the random stream of the sections above stays what it was
 	triples := soProfileTriples()
 	thorough := tier == "thorough"
 	// distinct (scale, offset) pairs
@@ -948,5 +950,113 @@ func genScaleOffset(emit func(string), tier string, rng *Rng) {
 			emit(fmt.Sprintf("so tset %s %s %016x", acc.info.mesg, acc.info.field, f64Operand(rng)))
 		}
 		emit(fmt.Sprintf("so typed %s %s %0*x", acc.info.mesg, acc.info.field, acc.bits/4, acc.info.invalid))
+	}
+}
+
+// ---------------------------------------------------------------- developer fields with a native-field override
+
+// execSoDev: `sodev <mnA>.<fnA> <mnB>.<fnB> <raw,raw,…>` — ONE message validator (as one encoder has) sees a developer data id,
+// two field descriptions (developer field 0 -> native field A, developer field 1 -> native field B) and then, per raw value,
+// a message of A carrying developer field 0 = ApplyValue(raw, A's scale/offset) followed by a message of B carrying
+// developer field 1 = ApplyValue(raw, B's scale/offset): the raw -> scaled -> validator route of a developer field that
+// is mapped to a native field. Answer: per raw `<value restored under A>,<value restored under B>` (or the error kind).
+func execSoDev(args []string) string {
+	if len(args) != 3 {
+		return "bad-op"
+	}
+	var nat [2]proto.Field
+	var mn [2]typedef.MesgNum
+	for i := 0; i < 2; i++ {
+		var m, f uint
+		if n, err := fmt.Sscanf(args[i], "%d.%d", &m, &f); n != 2 || err != nil || m > 0xffff || f > 0xff || args[i] != fmt.Sprintf("%d.%d", m, f) {
+			return "bad-op"
+		}
+		mn[i] = typedef.MesgNum(m)
+		nat[i] = factory.StandardFactory().CreateField(mn[i], byte(f))
+	}
+	mv := encoder.NewMessageValidator(encoder.ValidatorWithPreserveInvalidValues())
+	ddi := devDataIdMesg(0)
+	if err := mv.Validate(&ddi); err != nil {
+		return "err:setup"
+	}
+	for i := 0; i < 2; i++ {
+		fdm := fieldDescMesg(fdSpec{ddi: 0, fdn: uint8(i), bt: uint8(nat[i].BaseType), scale: -1, offset: 1000, nmn: int(mn[i]), nfn: int(nat[i].Num)})
+		if err := mv.Validate(&fdm); err != nil {
+			return "err:setup"
+		}
+	}
+	var out []string
+	for _, rs := range strings.Split(args[2], ",") {
+		raw, err := strconv.ParseUint(rs, 16, 64)
+		if err != nil || len(rs) != 16 {
+			return "bad-op"
+		}
+		var parts []string
+		for i := 0; i < 2; i++ {
+			rv, ok := vaRawValue(nat[i].BaseType, raw)
+			if !ok {
+				return "bad-op"
+			}
+			m := proto.Message{Num: mn[i], DeveloperFields: []proto.DeveloperField{{DeveloperDataIndex: 0, Num: uint8(i),
+				Value: scaleoffset.ApplyValue(rv, nat[i].Scale, nat[i].Offset)}}}
+			if err := mv.Validate(&m); err != nil {
+				parts = append(parts, errKind(err))
+			} else if len(m.DeveloperFields) != 1 {
+				parts = append(parts, "err:dropped")
+			} else {
+				parts = append(parts, printValue(m.DeveloperFields[0].Value))
+			}
+		}
+		out = append(out, strings.Join(parts, ","))
+	}
+	return strings.Join(out, ";")
+}
+
+// genSoDev: every group of scaled fields of the standard factory that share a field number across messages (and a sample
+// that share a message), both orders, boundary and random raw values; also against an unscaled field of the same number
+func genSoDev(emit func(string), thorough bool, rng *Rng) {
+	scaled := vaScaledFields()
+	sort.Slice(scaled, func(i, j int) bool {
+		if scaled[i].fn != scaled[j].fn {
+			return scaled[i].fn < scaled[j].fn
+		}
+		return scaled[i].mn < scaled[j].mn
+	})
+	line := func(a, b vaScaledField) {
+		if _, ok := vaRawValue(a.f.BaseType, 0); !ok {
+			return
+		}
+		if _, ok := vaRawValue(b.f.BaseType, 0); !ok {
+			return
+		}
+		raws := []uint64{0, 1, 29, 250, 2500, 0xfffe, 0x7fff, 0xfffffffe, rng.U64(), rng.U64()}
+		var rs []string
+		for _, r := range raws {
+			rs = append(rs, fmt.Sprintf("%016x", r))
+		}
+		emit(fmt.Sprintf("sodev %d.%d %d.%d %s", a.mn, a.fn, b.mn, b.fn, strings.Join(rs, ",")))
+		count("dev-native")
+	}
+	for i := 0; i < len(scaled); i++ {
+		for j := i + 1; j < len(scaled) && scaled[j].fn == scaled[i].fn; j++ {
+			line(scaled[i], scaled[j])
+			line(scaled[j], scaled[i])
+			if !thorough {
+				break
+			}
+		}
+		// same message, another number; and an unscaled / unknown native of the same number
+		k := (i*7 + 3) % len(scaled)
+		if thorough || i%4 == 0 {
+			line(scaled[i], scaled[k])
+			for _, m := range []typedef.MesgNum{20, 18, 0} {
+				f := factory.StandardFactory().CreateField(m, scaled[i].fn)
+				if f.Name != factory.NameUnknown && m != scaled[i].mn {
+					line(scaled[i], vaScaledField{m, scaled[i].fn, f})
+					line(vaScaledField{m, scaled[i].fn, f}, scaled[i])
+					break
+				}
+			}
+		}
 	}
 }
